@@ -1634,6 +1634,9 @@ func (x *Exec) doReturn(st *State, fr *Frame, r *ssa.Return) (stop bool) {
 			for i, rt := range fr.cbResTypes {
 				outs = append(outs, x.freshVal(st, rt, fmt.Sprintf("ret!%s!%d", shortName(fr.cbCallee), i)))
 			}
+			if fr.cbEnsure != nil {
+				fr.cbEnsure(st, outs)
+			}
 			x.setRet(st, caller, fr.cbRetTo, outs, fr.cbEvent)
 		}
 		return false
